@@ -28,7 +28,7 @@ ASSUMPTIONS = ["every line carries both ids and each gene has one seqid/strand (
 
 def budget(tier):
     if tier == "quick":
-        return {"runs": 3000, "wall": 50, "chunk": 8}
+        return {"runs": 3000, "wall": 120, "chunk": 8}
     return {"runs": 90000, "wall": 1500, "chunk": 8}
 
 
